@@ -98,8 +98,10 @@ def suite_result(suite, seed, tier, use_cache=True):
           "t_impl": t_impl, "t_coq": t_coq}
     os.makedirs(CACHE, exist_ok=True)
     try:
-        with open(path, "wb") as fh:
+        tmp = f"{path}.{os.getpid()}.tmp"
+        with open(tmp, "wb") as fh:
             pickle.dump(sr, fh)
+        os.replace(tmp, path)          # atomic: a concurrent check never reads a half-written cache
         # keep the cache small
         files = sorted((os.path.getmtime(os.path.join(CACHE, f)), f) for f in os.listdir(CACHE))
         for _, f in files[:-40]:
